@@ -5,13 +5,16 @@ from .common import Inst
 
 PROPERTY = "C30"
 LEVEL = "model_checking"
-FUNCTIONS = [("pandapower.diagnostic.diagnostic", "Diagnostic.__init__"), ("pandapower.diagnostic.diagnostic", "Diagnostic.register_function"),
+FUNCTIONS = [("pandapower.diagnostic.diagnostic_functions", "Overload.diagnostic"), ("pandapower.diagnostic.diagnostic_functions", "WrongLineCapacitance.diagnostic"),
+             ("pandapower.diagnostic.diagnostic_functions", "WrongSwitchConfiguration.diagnostic"), ("pandapower.diagnostic.diagnostic_functions", "SlackGenPlacement.diagnostic"),
+             ("pandapower.diagnostic.diagnostic", "Diagnostic.__init__"), ("pandapower.diagnostic.diagnostic", "Diagnostic.register_function"),
              ("pandapower.diagnostic.diagnostic", "Diagnostic.diagnose_network")]
-STUBS = ["the 18 registered default diagnostic functions are replaced by recording no-ops with the same names and argument lists "
+STUBS = ["network_unchanged_*: the power flow handed to the check (its documented `run` argument) is a contract stub that converges or raises LoadflowNotConverged by a symbolic choice per call",
+         "the 18 registered default diagnostic functions are replaced by recording no-ops with the same names and argument lists "
          "(their content is irrelevant to state leakage; what each would have received is recorded)"]
 ASSUMPTIONS = ["option values are symbolic reals in [-10,10]; option names come from {2 existing defaults, 1 new name} via a symbolic selector",
                "module-level defaults are restored by the harness after every path"]
-OUTSIDE = ["'leaves the network unchanged' (runs full power flows on pandas tables; concrete testing, not this family)",
+OUTSIDE = ["'leaves the network unchanged' for the checks that only read the network or work on a deep copy (nothing to restore); unexpected exception classes inside a check",
            "report formatting"]
 BOUNDS = {"quick": "<= 2 options per call, <= 2 calls, <= 2 instances, <= 1 registration", "thorough": "same + 3 calls on one instance"}
 KEYS = ["min_r_ohm", "overload_scaling_factor", "brand_new_option"]
@@ -150,8 +153,81 @@ def make_fn(scenario):
     return fn
 
 
+_UNET = {}
+
+
+def _unchanged_net():
+    if "n" not in _UNET:
+        from .common import pp
+        net = pp.create_empty_network()
+        b = [pp.create_bus(net, 20.) for _ in range(4)]
+        pp.create_ext_grid(net, b[0])
+        for k in range(3):
+            pp.create_line_from_parameters(net, b[k], b[k + 1], 2., 0.1, 0.3, 10., 1.)
+        pp.create_load(net, b[2], 1., 0.3, scaling=0.9)
+        pp.create_load(net, b[3], 1., 0.3, scaling=1.1)
+        pp.create_gen(net, b[1], 0.5, vm_pu=1.0, scaling=0.8, index=0)
+        pp.create_gen(net, b[2], 0.3, vm_pu=1.0, scaling=0.7, index=5)           # no sgen with index 5
+        pp.create_sgen(net, b[3], 0.2, 0.1, scaling=1.0, index=0)
+        pp.create_sgen(net, b[3], 0.1, 0.0, scaling=1.2, index=1)
+        pp.create_switch(net, b[1], 1, "l", closed=False)
+        pp.create_switch(net, b[2], b[3], "b", closed=True)
+        pp.runpp(net, numba=False, lightsim2grid=False)
+        _UNET["n"] = net
+    return _UNET["n"]
+
+
+def make_unchanged(check):
+    """'leaves the network unchanged' for the checks that modify the caller's network temporarily (scaling factors, line capacitance, switch
+    states, slack flags): the real diagnostic method with the power flow replaced by its contract (each call converges or raises
+    LoadflowNotConverged - a symbolic choice per call); symbolic table values; afterwards every input table cell is the user's value"""
+    def fn(ctx):
+        import sys
+        import importlib
+        import numpy as np
+        from pandapower.auxiliary import LoadflowNotConverged
+        importlib.import_module("pandapower.diagnostic.diagnostic_functions")
+        dfn = ctx.load("pandapower.diagnostic.diagnostic_functions")
+        net = copy.deepcopy(_unchanged_net())
+        sym = {}
+        for tab, col, lo, hi in (("load", "scaling", 0.1, 2.), ("gen", "scaling", 0.1, 2.), ("sgen", "scaling", 0.1, 2.), ("line", "c_nf_per_km", 1., 300.)):
+            vals = [ctx.var(f"{tab}{i}_{col}", lo, hi) for i in net[tab].index]
+            sym[(tab, col)] = vals
+            net[tab][col] = ctx.series(vals, index=net[tab].index)
+        before = {t: net[t].copy() for t in ("load", "gen", "sgen", "line", "switch", "bus", "ext_grid")}
+        calls = {"n": 0}
+
+        def run(net_, **kw):
+            k = calls["n"]
+            calls["n"] += 1
+            converges = bool(ctx.var(f"run{k}_converges", 0., 1.) >= 0.5) if k < 5 else True
+            if not converges:
+                raise LoadflowNotConverged("contract stub: this power flow does not converge")
+        obj = getattr(dfn, check)()
+        obj.diagnostic(net, run=run)
+        ctx.true("power_flow_was_attempted", calls["n"] >= 1)
+        for t, df0 in before.items():
+            ctx.true(f"{t}/same_rows_and_columns", list(net[t].index) == list(df0.index) and list(net[t].columns) == list(df0.columns))
+            if list(net[t].index) != list(df0.index) or list(net[t].columns) != list(df0.columns):
+                continue
+            for c in df0.columns:
+                for i in df0.index:
+                    a, b_ = net[t].at[i, c], df0.at[i, c]
+                    if (t, c) in sym:
+                        ctx.eq(f"{t}.{c}[{i}]_is_the_users_value", a, b_)
+                    else:
+                        na_a = a is None or (isinstance(a, float) and a != a) or a is getattr(__import__("pandas"), "NA")
+                        na_b = b_ is None or (isinstance(b_, float) and b_ != b_) or b_ is getattr(__import__("pandas"), "NA")
+                        ctx.true(f"{t}.{c}[{i}]_is_the_users_value", (na_a and na_b) if (na_a or na_b) else bool(a == b_))
+    return fn
+
+
 def instances(tier):
-    return [Inst(s, make_fn(s), nvars=8, meta=dict(scenario=s), samples=2) for s in ("other_instance", "later_call", "register", "register_no_defaults", "own_call")]
+    out = [Inst(s, make_fn(s), nvars=8, meta=dict(scenario=s), samples=2) for s in ("other_instance", "later_call", "register", "register_no_defaults", "own_call")]
+    for check in ("Overload", "WrongLineCapacitance", "WrongSwitchConfiguration", "SlackGenPlacement"):
+        out.append(Inst(f"network_unchanged_{check}", make_unchanged(check), nvars=24, samples=3, max_paths=2000,
+                        meta=dict(part="leaves the network unchanged", check=check)))
+    return out
 
 
 LEVEL_TEXT = ("Bounded model checking of the real Diagnostic plumbing (__init__, register_function, diagnose_network) with symbolic option "
